@@ -863,6 +863,7 @@ def build_replay():
 
 SEARCH_PROPS = {'C01', 'C02', 'C03', 'C04', 'C05', 'C06', 'C07', 'C12', 'C13'}
 ENV_SEARCH_PROPS = {'C05', 'C08', 'C10', 'C11', 'C12', 'C13', 'C14'}
+MARKET_SEARCH_PROPS = {'C12', 'C13', 'C14'}
 
 
 def witness_search(pid, new, tier, seed, replay_path):
@@ -890,7 +891,7 @@ def witness_search(pid, new, tier, seed, replay_path):
     want_book = bool(units - {'env', 'menv'}) and pid in SEARCH_PROPS
     if pid in ('C10', 'C11', 'C14', 'C08'):
         want_env = True
-    if not (want_env or want_book):
+    if not (want_env or want_book or pid in MARKET_SEARCH_PROPS):
         return None
     b = build_replay()
     if not b:
@@ -905,6 +906,9 @@ def witness_search(pid, new, tier, seed, replay_path):
         cmds.append(cmd)
     if want_env:
         cmds.append([b, 'search', '--env', '--prop', pid, '--seed', str(seed), '--random', str(nrand), '--budget', str(budget), '--out', out])
+    if pid in MARKET_SEARCH_PROPS:
+        # direct operations on Market<3, 2> against stand-alone books (C12 creation rule, C13 toggles incl. single books, C14 independence and all-asset queries)
+        cmds.append([b, 'search', '--market', '--prop', pid, '--seed', str(seed), '--random', str(nrand), '--budget', str(budget), '--out', out])
     for cmd in cmds:
         p = subprocess.run(cmd, capture_output=True, text=True)
         if p.returncode == 1 and os.path.exists(out):
